@@ -38,7 +38,11 @@ func init() {
 	if f := os.Getenv("VERIF_ZENODB_LOG"); f != "" {
 		// debugging aid: zenodb's error log to a file
 		if w, err := os.OpenFile(f, os.O_CREATE|os.O_APPEND|os.O_WRONLY, 0644); err == nil {
-			golog.SetOutputs(w, io.Discard)
+			if os.Getenv("VERIF_ZENODB_LOG_DEBUG") != "" {
+				golog.SetOutputs(w, w)
+			} else {
+				golog.SetOutputs(w, io.Discard)
+			}
 		}
 	}
 	zenodb.VerifInitClockHook = func(db *zenodb.DB) {
@@ -472,29 +476,16 @@ func (d *DB) Alter(cfg Config) error {
 	if err := d.Z.ApplySchema(d.schema()); err != nil {
 		return err
 	}
-	deadline := time.Now().Add(d.Timeout)
+	// ApplySchema hands the new field list to the table's row-store actor over an unbuffered channel, so it
+	// returns once the actor has *taken* the message; the actor then finishes that step (flush, new memstore)
+	// before it looks at anything else. A forced flush request travels to the same actor and is answered only after
+	// it has been processed: used here as a barrier (the memstore is empty by then, so the flush itself does
+	// nothing). No waiting on state: whether the row store really adopted the fields is for the checks to judge.
 	for _, t := range cfg.Tables {
-		name := strings.ToLower(t.Name)
-		for {
-			want := zenodb.VerifTableFields(d.Z, name)
-			got := zenodb.VerifRowStoreFields(d.Z, name)
-			if len(want) == len(got) {
-				same := true
-				for i := range want {
-					if want[i].String() != got[i] {
-						same = false
-					}
-				}
-				if same {
-					break
-				}
-			}
-			if time.Now().After(deadline) {
-				d.TimedOut = true
-				return fmt.Errorf("row store did not take field update")
-			}
-			time.Sleep(200 * time.Microsecond)
+		if t.View {
+			continue
 		}
+		zenodb.VerifFlushTable(d.Z, strings.ToLower(t.Name))
 	}
 	return nil
 }
